@@ -1088,6 +1088,28 @@ def check_paths(ctx):
 
 
 # --------------------------------------------------------------------------
+_OTHER_RELEASE_WRITER = r"""
+import sys
+import sedpack
+sedpack.__version__ = sys.argv[2]
+import numpy as np
+from sedpack.io import Dataset, Metadata, DatasetStructure, Attribute
+md = Metadata(description="recorded by " + sys.argv[2],
+              custom_metadata={"nested": {"k": [1, 2.5, None, True]}})
+ds = DatasetStructure(
+    saved_data_description=[Attribute(name="id", dtype="int64", shape=()),
+                            Attribute(name="v", dtype="float32", shape=(3,))],
+    compression="", examples_per_shard=2, shard_file_type="npz")
+d = Dataset.create(sys.argv[1], metadata=md, dataset_structure=ds)
+with d.filler() as f:
+    for i in range(3):
+        f.write_example(values={"id": i, "v": np.full(3, i, np.float32)},
+                        split="train")
+if d.metadata.sedpack_version != sys.argv[2]:
+    sys.exit("the writing handle does not hold version " + sys.argv[2])
+"""
+
+
 def check_reopen(ctx):
     """C20: description round trip; relocation; version gate."""
     import sedpack
@@ -1221,6 +1243,71 @@ def check_reopen(ctx):
                 bad = dict(recorded=v, running=str(cur), loaded=loaded,
                            should_load=not newer)
                 break
+        # datasets really recorded by another release: a child process sets
+        # sedpack.__version__ before sedpack.io is imported, so that whatever
+        # the write path derives from the version behaves as in that release
+        rel_bad = None
+        rel_n = 0
+        writer = tmp / "other_release_writer.py"
+        writer.write_text(_OTHER_RELEASE_WRITER, encoding="utf-8")
+        triples = {"same": (cur.major, cur.minor, cur.patch),
+                   "newer-patch": (cur.major, cur.minor, cur.patch + 1),
+                   "newer-minor": (cur.major, cur.minor + 1, 0)}
+        if cur.patch > 0:
+            triples["older-patch"] = (cur.major, cur.minor, cur.patch - 1)
+        elif cur.minor > 0:
+            triples["older-minor"] = (cur.major, cur.minor - 1, 9)
+        elif cur.major > 0:
+            triples["older-major"] = (cur.major - 1, 9, 9)
+        if tier == "quick":
+            triples.pop("newer-minor")
+        env = dict(os.environ, TF_CPP_MIN_LOG_LEVEL="3",
+                   CUDA_VISIBLE_DEVICES="", PYTHONDONTWRITEBYTECODE="1",
+                   PYTHONPATH=os.path.dirname(os.path.dirname(
+                       os.path.abspath(sedpack.__file__))))
+        procs = {}
+        for name, t3 in triples.items():
+            v = "%d.%d.%d" % t3
+            procs[name] = (v, subprocess.Popen(
+                [sys.executable, str(writer), str(tmp / ("rel_" + name)), v],
+                env=env, stdout=subprocess.PIPE, stderr=subprocess.STDOUT,
+                text=True))
+        for name, (v, pr) in procs.items():
+            rel_n += 1
+            try:
+                o, _ = pr.communicate(timeout=600)
+            except subprocess.TimeoutExpired:
+                pr.kill()
+                o = "timeout"
+            if pr.returncode != 0:
+                # the harness, not the library, failed to record
+                raise RuntimeError("other-release writer failed: " + o[-400:])
+            newer = semver.Version.parse(v).compare(str(cur)) > 0
+            try:
+                dd = Dataset(tmp / ("rel_" + name))
+                loaded, seen = True, dd.metadata.sedpack_version
+            except ValueError:
+                loaded, seen = False, None
+            except Exception as e:  # noqa: BLE001
+                rel_bad = dict(recorded_by=v, error=repr(e)[:200])
+                break
+            if loaded == newer:
+                rel_bad = dict(recorded_by=v, running=str(cur), loaded=loaded,
+                               should_load=not newer)
+                break
+            if loaded and seen != v:
+                rel_bad = dict(recorded_by=v, running=str(cur),
+                               reopened_reports=seen,
+                               what="the recorded version is not what the "
+                                    "writing release held")
+                break
+        out.append(C.result("a dataset recorded by another release (child "
+                            "process with that version) is refused when "
+                            "newer and otherwise reopens reporting the "
+                            "recording version", rel_bad is None,
+                            function="DatasetWriting.write_config",
+                            evaluations=rel_n, witness=rel_bad,
+                            bound=f"releases {sorted(triples)}"))
         # A-SEMVER: the library's comparison is the precedence order of the
         # semver 2.0 specification (the chains of its section 11, written
         # down here independently of the library)
